@@ -1,4 +1,4 @@
-import SccacheModel.Model.Paths
+import SccacheModel.Proofs.Paths
 
 namespace DrvPaths
 open PathsM
@@ -27,6 +27,27 @@ partial def loop (h : IO.FS.Stream) (n bad : Nat) : IO Nat := do
       loop h (n + 1) (bad + 1)
     else loop h (n + 1) bad
   | _ => IO.println s!"bad line {n}: {l}"; loop h (n + 1) (bad + 1)
+/-- `modeld tcid`: lines `hex id <TAB> true|false` (did the real TcCache get as far as building a path for this id?) against `validId` -/
+partial def idLoop (h : IO.FS.Stream) (n bad : Nat) : IO Nat := do
+  let line ← h.getLine
+  if line.isEmpty then return bad
+  match (line.dropEnd 1).toString.splitOn "\t" with
+  | [hx, acc] =>
+    let hexVal (c : Char) : Nat := if c.isDigit then c.toNat - '0'.toNat else c.toNat - 'a'.toNat + 10
+    let rec go : List Char → Bytes
+      | a :: b :: rest => UInt8.ofNat (hexVal a * 16 + hexVal b) :: go rest
+      | _ => []
+    let id : Bytes := if hx == "e" then [] else go hx.toList
+    let m := if validId id then "true" else "false"
+    if m != acc then
+      IO.println s!"MISMATCH {n}: id {hx}: real accepted={acc} model validId={m}"
+      idLoop h (n + 1) (bad + 1)
+    else idLoop h (n + 1) bad
+  | _ => idLoop h (n + 1) (bad + 1)
+def mainIds : IO Unit := do
+  let bad ← idLoop (← IO.getStdin) 1 0
+  IO.println s!"mismatches: {bad}"
+
 def main : IO Unit := do
   let bad ← loop (← IO.getStdin) 1 0
   IO.println s!"mismatches: {bad}"
